@@ -24,6 +24,8 @@ type CGProp struct {
 	Name   string `json:"name"`
 	TypeID string `json:"type_id"`
 	Ref    string `json:"ref,omitempty"`
+	// ExtraID: an id carried by a type that is not a reference
+	ExtraID string `json:"extra_id,omitempty"`
 }
 
 type CGObject struct {
@@ -76,6 +78,9 @@ func genCGDoc(s Src, withMap bool) ([]CGObject, string) {
 			if p.TypeID == "map" && !withMap {
 				p.TypeID = "list"
 			}
+			if p.TypeID != "ref" && s.Choose("cg.extraid", 4) == 3 {
+				p.ExtraID = []string{"Inner", "Counter", "meta", "X9"}[s.Choose("cg.extraidname", 4)]
+			}
 			if p.TypeID == "ref" {
 				p.Ref = fmt.Sprintf("Ref%d", s.Choose("cg.ref", 5))
 				if no > 0 && s.Choose("cg.refobj", 2) == 1 {
@@ -117,6 +122,9 @@ func genCGDoc(s Src, withMap bool) ([]CGObject, string) {
 			fmt.Fprintf(&b, "            %s:\n              required: true\n              display:\n                name: %s\n              type:\n                type_id: %s\n", p.Name, p.Name, p.TypeID)
 			if p.TypeID == "ref" {
 				fmt.Fprintf(&b, "                id: %s\n", p.Ref)
+			} else if p.ExtraID != "" {
+				// an id on a type that is not a reference (inline objects have one): it does not name the Go type
+				fmt.Fprintf(&b, "                id: %s\n", p.ExtraID)
 			}
 		}
 	}
